@@ -43,7 +43,30 @@ theorem proximity_wiring_ok :
       proximity_dask.coordsChunkedLikeRaster &&
       (proximity_dask.depthOrder == ["pad_y", "pad_x"]) &&
       (proximity_dask.arrays == ["raster.data", "xs", "ys"]) &&
-      (proximity_dask.fallbackTest == "max_distance >= max_possible_distance")) = true := by
+      (proximity_dask.fallbackDisjuncts.contains "max_distance >= max_possible_distance")) = true := by
+  decide
+
+/-- **the GREAT_CIRCLE halo guard (repair of D28)**: the halo `max_distance[m] / cellsize[deg]` covers `max_distance`
+    only while a degree of longitude is long enough on every row; the generated `_process` computes
+    `halo_covers_max_distance` in front of `_process_dask` (true for the planar metrics, for GREAT_CIRCLE the test
+    "metres per degree of longitude at the row nearest to a pole >= pi / 2") and `not halo_covers_max_distance` is a
+    disjunct of the single-block test.  Whatever makes the code fall back is sound (`single_block_is_whole` below: one block
+    of the raster's own shape is the whole-raster computation), so the disjunct can only enlarge the set of inputs for
+    which Dask = NumPy holds by construction; that the threshold is *sufficient* for the haversine metric is not a
+    theorem here (transcendental) -- it is decided by the geographic stream of the correspondence run, which now
+    goes down to a few metres from either pole. -/
+theorem great_circle_guard_wired :
+    (proximity_dask.fallbackDisjuncts.contains "not halo_covers_max_distance" &&
+      (proximity_dask.gcGuardDefault == "True") &&
+      (proximity_dask.gcGuardWhen == "distance_metric == GREAT_CIRCLE and raster.shape[0] > 0") &&
+      (proximity_dask.gcGuardTest ==
+        "max_abs_lat = min(float(np.max(np.abs(ys))), 90.0); metres_per_degree_of_longitude = np.radians(1.0) * 6378137 * np.cos(np.radians(max_abs_lat)); halo_covers_max_distance = metres_per_degree_of_longitude >= np.pi / 2")) = true := by
+  decide +kernel
+
+/-- every reason for the fallback that the generated test lists is one of the two analysed ones -/
+theorem fallback_reasons_closed :
+    proximity_dask.fallbackDisjuncts.all
+      (fun d => d == "max_distance >= max_possible_distance" || d == "not halo_covers_max_distance") = true := by
   decide
 
 /-- **the `map_overlap` of `_process_dask` leaves the key of its layer to dask** (generated): no `name=`, no forwarded
